@@ -196,6 +196,11 @@ def run(ctx):
         # data file
         n_lines = int(rng.integers(1, 13))
         n_data_min = int(rng.integers(0, min(7, nb + 1)))
+        slot10 = (irun + ctx.shard) % 5          # the classes every run must contain are laid out by (run, shard), the rest is drawn
+        if slot10 in (1, 2, 3):
+            n_lines = max(n_lines, 3)
+        if slot10 == 3:
+            n_data_min = max(n_data_min, 1)
         lines, ndat = [], []
 
         def gen_line(i, nfit, name):
@@ -210,7 +215,7 @@ def run(ctx):
             return gen.source_line(name, valid, flux, err, rng.uniform(0, 360), rng.uniform(-90, 90)), int(np.sum((valid == 1) | (valid == 4)))
 
         snames = ['s%02d' % i for i in range(n_lines)]
-        if n_lines >= 3 and rng.random() < 0.3:
+        if n_lines >= 3 and (slot10 == 2 or rng.random() < 0.3):
             snames[int(rng.integers(1, n_lines))] = snames[0]          # two lines may carry the same source name
             ctx.regime('duplicate-source-name')
         for i in range(n_lines):
@@ -220,9 +225,14 @@ def run(ctx):
         if not any(nd_ >= n_data_min for nd_ in ndat):                 # at least one eligible line, anywhere in the file
             j_ = int(rng.integers(n_lines))
             lines[j_], ndat[j_] = gen_line(j_, min(nb, max(n_data_min, 2)), snames[j_])
+        if slot10 == 3 and n_lines >= 2 and n_data_min >= 1 and ndat[0] >= n_data_min:
+            # the first line is not eligible (a later one is)
+            lines[0], ndat[0] = gen_line(0, max(0, n_data_min - 1), snames[0])
+            if not any(nd_ >= n_data_min for nd_ in ndat[1:]):
+                lines[1], ndat[1] = gen_line(1, min(nb, max(n_data_min, 2)), snames[1])
         file_lines = list(lines)
         stop = n_lines
-        if n_lines >= 2 and rng.random() < 0.25:
+        if n_lines >= 2 and (slot10 == 1 or rng.random() < 0.25):
             # a line with fewer than three columns ends the input: everything after it is not read
             cand = [p_ for p_ in range(1, n_lines) if any(ndat[q_] >= n_data_min for q_ in range(p_))]
             if cand:
@@ -244,14 +254,15 @@ def run(ctx):
                ('E', float(10 ** rng.uniform(0, 3)) + 0.0137), ('F', float(10 ** rng.uniform(-1, 3)) + 0.0137)][int(rng.integers(6))]
         oc = bool(rng.random() < 0.5) or style == 'v2' and False
         ctx.regime('output_convolved' if oc else 'no-output_convolved')
-        kw = dict(filter_names=filt, apertures=theta * u.arcsec, model_dir=md, extinction_law=law, av_range=(0.0, 25.0), distance_range=dr)
+        aunit10 = [u.arcsec, u.arcmin, u.deg][irun % 3]          # the apertures may be given in any angle unit
+        kw = dict(filter_names=filt, apertures=(theta * u.arcsec).to(aunit10), model_dir=md, extinction_law=law, av_range=(0.0, 25.0), distance_range=dr)
         wit0 = dict(mode=mode, style=style, n_lines=n_lines, n_data=ndat, n_data_min=n_data_min, selector=sel, output_convolved=oc)
         del TRACE[:]
         try:
             with effects.trace() as tr:
                 fit(data, output=out, n_data_min=n_data_min, output_format=sel, output_convolved=oc, **kw)
         except Exception as exc:
-            ctx.violation('fit-raised', 'fit() raised: %r' % (exc,), wit0)
+            ctx.raised(exc, 'fit-raised', 'fit() raised: %r' % (exc,), wit0)
             ctx.rmdir(d)
             continue
         trace = list(TRACE)
@@ -271,7 +282,7 @@ def run(ctx):
         try:
             fitter = Fitter(**dict(kw, filter_names=filt))
         except Exception as exc:
-            ctx.violation('fitter-raised', 'Fitter() raised: %r' % (exc,), wit0)
+            ctx.raised(exc, 'fitter-raised', 'Fitter() raised: %r' % (exc,), wit0)
             ctx.rmdir(d)
             continue
         def through_objects(ft_):
@@ -296,7 +307,7 @@ def run(ctx):
             meta = fin.meta
             fin.close()
         except Exception as exc:
-            ctx.violation('read-raised', 'reading the fit file raised: %r' % (exc,), wit0)
+            ctx.raised(exc, 'read-raised', 'reading the fit file raised: %r' % (exc,), wit0)
             ctx.rmdir(d)
             continue
         if len(recs) != len(expect):
@@ -323,7 +334,7 @@ def run(ctx):
                 ctx.violation('file:law-differs', 'the extinction law read back from the file does not give the pattern of the law that was passed in',
                               dict(wit0, law_unit=str(law.wav.unit), got=k_back))
         except Exception as exc:
-            ctx.violation('file:law-differs', 'the extinction law read back cannot be evaluated: %r' % (exc,), wit0)
+            ctx.raised(exc, 'file:law-differs', 'the extinction law read back cannot be evaluated: %r' % (exc,), wit0)
         badm = [k_ for k_ in want_meta if not (probe.same(mc[k_], want_meta[k_]) if isinstance(want_meta[k_], np.ndarray) else
                                                (mc[k_] == want_meta[k_] if k_ != 'filters' else
                                                 all(a[0] == b[0] and abs(a[1] - b[1]) <= 1e-12 * abs(b[1]) and abs(a[2] - b[2]) <= 1e-9 * b[2] for a, b in zip(mc[k_], want_meta[k_])) and len(mc[k_]) == len(want_meta[k_])))]
@@ -374,7 +385,7 @@ def run(ctx):
                                            written_n=len(a_['chi2']), read_n=len(b_['chi2'])))
                         break
         except Exception as exc:
-            ctx.violation('sequence:raised', 'writing/reading a sequence of records raised: %r' % (exc,), wit0)
+            ctx.raised(exc, 'sequence:raised', 'writing/reading a sequence of records raised: %r' % (exc,), wit0)
         # ---- post-processing: three forms ----------------------------------------------
         post = Post(ctx, d)
         sels = [('A', 0), ('N', 1), ('N', 2), ('N', 3), ('F', 1e6), ('C', 1e-9), ('D', 3.7), ('E', 2.3)]
@@ -402,7 +413,7 @@ def run(ctx):
             try:
                 ref = post.run(fname, out, psel)
             except Exception as exc:
-                ctx.violation('post:%s:file-input-raised:%s' % (fname, type(exc).__name__), '%s raised on a file input: %r' % (fname, exc), dict(wit0, post_selector=psel))
+                ctx.raised(exc, 'post:%s:file-input-raised:%s' % (fname, type(exc).__name__), '%s raised on a file input: %r' % (fname, exc), dict(wit0, post_selector=psel))
                 continue
             lst = fresh()
             if len(lst) >= 2 and rng.random() < 0.5:
@@ -414,7 +425,7 @@ def run(ctx):
             try:
                 got = post.run(fname, lst, psel)
             except Exception as exc:
-                ctx.violation('post:%s:list-input-raised:%s' % (fname, type(exc).__name__), '%s raised on a list of results: %r' % (fname, exc), dict(wit0, post_selector=psel))
+                ctx.raised(exc, 'post:%s:list-input-raised:%s' % (fname, type(exc).__name__), '%s raised on a list of results: %r' % (fname, exc), dict(wit0, post_selector=psel))
                 got = None
             if got is not None:
                 ctx.event('forms:file-vs-list')
@@ -440,7 +451,7 @@ def run(ctx):
                 if probe.same_canon(b1, probe.canon_info(one)):
                     ctx.violation('post:%s:modifies-results' % fname, '%s modified the result object it was given' % fname, dict(wit0, post_selector=psel))
             except Exception as exc:
-                ctx.violation('post:%s:object-input-raised:%s' % (fname, type(exc).__name__), '%s raised on a single result object: %r' % (fname, exc), dict(wit0, post_selector=psel))
+                ctx.raised(exc, 'post:%s:object-input-raised:%s' % (fname, type(exc).__name__), '%s raised on a single result object: %r' % (fname, exc), dict(wit0, post_selector=psel))
             ctx.case(('forms', irun, fname, ctx.shard), nontrivial=True)
 
         # ---- sequences of <=3 calls on the same in-memory results vs on the file ---------
@@ -460,7 +471,7 @@ def run(ctx):
                     a = post.run(fname, out, psel)
                     b = post.run(fname, shared, psel)
                 except Exception as exc:
-                    ctx.violation('sequence:raised:%s' % fname, 'a post-processing call in a sequence raised: %r' % (exc,), dict(wit0, sequence=seq, step=step))
+                    ctx.raised(exc, 'sequence:raised:%s' % fname, 'a post-processing call in a sequence raised: %r' % (exc,), dict(wit0, sequence=seq, step=step))
                     okseq = False
                     break
                 if not same_output(fname, a, b):
